@@ -23,8 +23,9 @@ import tempfile
 from harness import core, gen, histcheck, isoapi
 from harness.props import c01, c05
 
-LEAN_MODULES = ['Pycdlib.Props.C04', 'Pycdlib.Props.C03']
-THEOREMS = ['Pycdlib.writer_matches_cache', 'Pycdlib.writer_no_straddle', 'Pycdlib.nfScan_append', 'Pycdlib.decDR_encDR']
+LEAN_MODULES = ['Pycdlib.Props.C04', 'Pycdlib.Props.C03', 'Pycdlib.Props.TiePack']
+THEOREMS = ['Pycdlib.writer_matches_cache', 'Pycdlib.writer_no_straddle', 'Pycdlib.nfScan_append', 'Pycdlib.decDR_encDR',
+            'Pycdlib.dr_recalc_tie', 'Pycdlib.dr_recalc_init_tie']
 PARTIAL = {'patch_eq_remaster_partial': 'the offset arithmetic (cached next-fit position = writer position) is proved; equality of the '
            'patched image with a full re-master is decided per case by the oracle'}
 TRUSTED = ['the independent reader; byte diff of the image file before/after']
